@@ -496,6 +496,27 @@ func srEvJSON(evs []gmsl.PDU) []byte {
 	return []byte(strings.Join(ls, "\n"))
 }
 
+// srEJSON renders the events for the auth model: the event JSON with its event_id member
+// (one per line), the way harness/c07.go hands events to Auth.Model.
+func srEJSON(evs []gmsl.PDU) []byte {
+	ls := make([]string, len(evs))
+	for i, e := range evs {
+		dec := json.NewDecoder(bytes.NewReader(e.JSON()))
+		dec.UseNumber()
+		var m map[string]interface{}
+		if err := dec.Decode(&m); err != nil {
+			panic(err)
+		}
+		m["event_id"] = e.EventID()
+		b, err := json.Marshal(m)
+		if err != nil {
+			panic(err)
+		}
+		ls[i] = string(b)
+	}
+	return []byte(strings.Join(ls, "\n"))
+}
+
 func srIDs(evs []gmsl.PDU) []string {
 	ids := make([]string, len(evs))
 	for i, e := range evs {
@@ -803,6 +824,40 @@ func init() {
 		return srResult(gmsl.ResolveConflicts(gmsl.RoomVersion(ver), c.list(a[2]), c.list(a[3]), srUserIDForSender, srRejectedFn(a[4])))
 	}))
 
+	// end to end (auth rules inside the model): [ver; universe; sets|events; auth; rejected; ejson; evjson]
+	RegisterImpl("C10.resolve_new_e2e", wrap(func(ver string, c *srCase, a [][]byte) []byte {
+		a[5] = srEJSON(c.evs)
+		return srResult(gmsl.ResolveConflictsNew(gmsl.RoomVersion(ver), c.sets(a[2]), c.list(a[3]), srUserIDForSender, srRejectedFn(a[4])))
+	}))
+	RegisterImpl("C10.resolve_old_e2e", wrap(func(ver string, c *srCase, a [][]byte) []byte {
+		a[5] = srEJSON(c.evs)
+		return srResult(gmsl.ResolveConflicts(gmsl.RoomVersion(ver), c.list(a[2]), c.list(a[3]), srUserIDForSender, srRejectedFn(a[4])))
+	}))
+	// the real Allowed on every row of a verdict table: [ver; universe; table; ejson; evjson]
+	RegisterImpl("C10.allowed_rows", wrap(func(ver string, c *srCase, a [][]byte) []byte {
+		a[3] = srEJSON(c.evs)
+		var out []byte
+		if len(a[2]) == 0 {
+			return out
+		}
+		for _, l := range strings.Split(string(a[2]), "\n") {
+			parts := strings.SplitN(l, "|", 3)
+			if len(parts) != 3 {
+				continue
+			}
+			var ids []string
+			if parts[1] != "" {
+				ids = strings.Split(parts[1], ",")
+			}
+			if srVerdict(c, parts[0], ids) {
+				out = append(out, '1')
+			} else {
+				out = append(out, '0')
+			}
+		}
+		return out
+	}))
+
 	RegisterProp("C10", propC10)
 }
 
@@ -941,6 +996,14 @@ func propC10(c *Ctx) {
 		oargs := [][]byte{[]byte(ver), in.universe, srCSV(all), srCSV(in.auth), []byte(strings.Join(in.rejected, ",")), nil, in.evjson}
 		oargs[5] = srFillTable(cs, "C10.resolve_old", oargs, 5)
 		c.Run("C10.resolve_old", oargs, "C10.resolve_old", v1oldop, desc)
+
+		// end to end: the auth rules are the Coq auth model, no verdict table
+		ej := srEJSON(in.h.evs)
+		c.Run("C10.resolve_new_e2e", [][]byte{args[0], args[1], args[2], args[3], args[4], ej, in.evjson}, "C10.resolve_new_e2e", "", desc)
+		c.Run("C10.resolve_old_e2e", [][]byte{oargs[0], oargs[1], oargs[2], oargs[3], oargs[4], ej, in.evjson}, "C10.resolve_old_e2e", "", desc)
+		// and the auth model against the real rules on exactly the queries resolution made
+		c.Run("C10.allowed_rows", [][]byte{args[0], args[1], args[5], ej, in.evjson}, "C10.allowed_rows", "", desc+" (rows of the verdict table, current entry point)")
+		c.Run("C10.allowed_rows", [][]byte{args[0], args[1], oargs[5], ej, in.evjson}, "C10.allowed_rows", "", desc+" (rows of the verdict table, deprecated entry point)")
 
 		if algo != gmsl.StateResV1 {
 			// the stages, on the lists the model's driver hands them
